@@ -11,6 +11,13 @@
 #include "libphysica/Special_Functions.hpp"
 #include "libphysica/Statistics.hpp"
 
+#ifdef LIBPHYSICA_VERIF
+// Verification hook (observation only): a non-zero value re-seeds the generator of the Monte Carlo integrators, so that two call histories can be replayed with the same random stream.
+extern "C" {
+unsigned int libphysica_verif_mc_seed = 0;
+}
+#endif
+
 namespace libphysica
 {
 using namespace boost::math::quadrature;
@@ -306,6 +313,10 @@ double Integrate_MC_Vegas(std::function<double(std::vector<double>&, const doubl
 	// Initialize  captive, static random number generator
 	std::random_device rd;
 	std::mt19937 PRNG(rd());
+#ifdef LIBPHYSICA_VERIF
+	if(libphysica_verif_mc_seed != 0)
+		PRNG.seed(libphysica_verif_mc_seed);
+#endif
 
 	int ndim = region.size() / 2;
 	if(init <= 0)
@@ -538,6 +549,10 @@ double Integrate_MC_Brute_Force(std::function<double(std::vector<double>&, const
 {
 	std::random_device rd;
 	std::mt19937 PRNG(rd());
+#ifdef LIBPHYSICA_VERIF
+	if(libphysica_verif_mc_seed != 0)
+		PRNG.seed(libphysica_verif_mc_seed);
+#endif
 
 	double volume = MC_Volume(region);
 
@@ -660,6 +675,10 @@ double Integrate_MC_Miser(std::function<double(std::vector<double>&, const doubl
 	// Initialize  captive, static random number generator
 	std::random_device rd;
 	std::mt19937 PRNG(rd());
+#ifdef LIBPHYSICA_VERIF
+	if(libphysica_verif_mc_seed != 0)
+		PRNG.seed(libphysica_verif_mc_seed);
+#endif
 
 	double dith = 0.0;
 	double average, var;
